@@ -715,7 +715,8 @@ static int ZSTD_isUpdateAuthorized(ZSTD_cParameter param)
 size_t ZSTD_CCtx_setParameter(ZSTD_CCtx* cctx, ZSTD_cParameter param, int value)
 {
     DEBUGLOG(4, "ZSTD_CCtx_setParameter (%i, %i)", (int)param, value);
-    if (cctx->streamStage != zcss_init) {
+    if ( (cctx->streamStage != zcss_init)
+      || (cctx->stableIn_notConsumed != 0) ) {   /* input was accepted already : the frame has started for the caller */
         RETURN_ERROR_IF(!ZSTD_isUpdateAuthorized(param), stage_wrong,
                         "can only set params in cctx init stage");
     }
@@ -1181,6 +1182,8 @@ size_t ZSTD_CCtx_setParametersUsingCCtxParams(
     DEBUGLOG(4, "ZSTD_CCtx_setParametersUsingCCtxParams");
     RETURN_ERROR_IF(cctx->streamStage != zcss_init, stage_wrong,
                     "The context is in the wrong stage!");
+    RETURN_ERROR_IF(cctx->stableIn_notConsumed != 0, stage_wrong,
+                    "Input was accepted already (stable input buffer) : the frame has started.");
     RETURN_ERROR_IF(cctx->cdict, stage_wrong,
                     "Can't override parameters with cdict attached (some must "
                     "be inherited from the cdict).");
@@ -1377,6 +1380,8 @@ size_t ZSTD_CCtx_reset(ZSTD_CCtx* cctx, ZSTD_ResetDirective reset)
       || (reset == ZSTD_reset_session_and_parameters) ) {
         RETURN_ERROR_IF(cctx->streamStage != zcss_init, stage_wrong,
                         "Reset parameters is only possible during init stage.");
+        RETURN_ERROR_IF(cctx->stableIn_notConsumed != 0, stage_wrong,
+                        "Input was accepted already (stable input buffer) : the frame has started.");
         ZSTD_clearAllDicts(cctx);
         return ZSTD_CCtxParams_reset(&cctx->requestedParams);
     }
